@@ -19,7 +19,7 @@ META = {
               "immediate constants symbolic",
     "outside": ["programs with absolute references at bases where an address exceeds 0o177777 (the assembler rejects '.word L' >= 2^16)",
                 "three bases at once (the law is binary; pairs are decided for all values)"],
-    "structure": ".link at the start or at the end of the source (base unknown while compiling); 13 fixed programs + seeded random programs (quick 30, thorough 400)",
+    "structure": ".link at the start or at the end of the source (base unknown while compiling); 13 fixed programs + seeded random programs (quick 30, thorough 400); the source assembled twice in one process with '.once'; one program split into two linked files with '.link' in either",
     "stubs": [],
 }
 
